@@ -4,6 +4,7 @@ import (
 	"fmt"
 	"math/big"
 	"math/rand"
+	"strings"
 
 	"github.com/crate-crypto/go-ipa/bandersnatch"
 	"github.com/crate-crypto/go-ipa/bandersnatch/fr"
@@ -227,9 +228,70 @@ func (g *engine) pickScalar() *big.Int {
 	return randScalar(g.rng)
 }
 
+// roStep runs one group operation whose non-receiver operands (points and scalar) live on read-only memory pages, and
+// compares the result bitwise with the same operation on ordinary copies. An operation that writes to an operand it
+// only reads faults; the fault is reported as a violation.
+func (g *engine) roStep() {
+	rng := g.rng
+	a, b := rng.Intn(len(g.e)), rng.Intn(len(g.e))
+	pa, pb := roElem(&g.e[a]), roElem(&g.e[b])
+	sv := FrFromBig(g.pickScalar())
+	ps := roFr(&sv)
+	if pa == nil || pb == nil || ps == nil {
+		return
+	}
+	ca, cb, cs := g.e[a], g.e[b], sv
+	ops := []struct {
+		name string
+		f    func(r *banderwagon.Element, x, y *banderwagon.Element, s *fr.Element)
+	}{
+		{"Add", func(r, x, y *banderwagon.Element, s *fr.Element) { r.Add(x, y) }},
+		{"Sub", func(r, x, y *banderwagon.Element, s *fr.Element) { r.Sub(x, y) }},
+		{"Double", func(r, x, y *banderwagon.Element, s *fr.Element) { r.Double(x) }},
+		{"Neg", func(r, x, y *banderwagon.Element, s *fr.Element) { r.Neg(x) }},
+		{"ScalarMul", func(r, x, y *banderwagon.Element, s *fr.Element) { r.ScalarMul(x, s) }},
+		{"Set", func(r, x, y *banderwagon.Element, s *fr.Element) { r.Set(x) }},
+		{"Equal", func(r, x, y *banderwagon.Element, s *fr.Element) {
+			if x.Equal(y) {
+				r.SetIdentity()
+			} else {
+				*r = banderwagon.Generator
+			}
+		}},
+		{"Bytes/MapToScalarField", func(r, x, y *banderwagon.Element, s *fr.Element) {
+			by := x.Bytes()
+			var m fr.Element
+			y.MapToScalarField(&m)
+			r.SetIdentity()
+			if by[0]&1 == 1 || m.IsZero() {
+				*r = banderwagon.Generator
+			}
+		}},
+	}
+	op := ops[rng.Intn(len(ops))]
+	var viaRO, plain banderwagon.Element
+	faulted, msg := callRO(func() { op.f(&viaRO, pa, pb, ps) })
+	op.f(&plain, &ca, &cb, &cs)
+	switch {
+	case faulted && (strings.Contains(msg, "fault") || strings.Contains(msg, "memory address")):
+		g.c.Fail("operand-written/"+op.name, fmt.Sprintf("%s wrote to an operand it should only read (the operands were on read-only pages: %s)", op.name, msg), nil)
+	case faulted:
+		g.c.Fail("panic/"+op.name, op.name+" panicked: "+msg, nil)
+	case viaRO != plain:
+		g.c.Fail("result-depends-on-operand-location/"+op.name, op.name+" gives a different result when its operands are on read-only pages", nil)
+	}
+	g.c.Count("operations_with_read_only_operands", 1)
+}
+
+var engineROBudget = 400
+
 // step executes one random operation.
 func (g *engine) step() {
 	rng := g.rng
+	if engineROBudget > 0 && rng.Intn(24) == 0 {
+		engineROBudget--
+		g.roStep()
+	}
 	n := len(g.e)
 	d, a, b := rng.Intn(n), rng.Intn(n), rng.Intn(n)
 	if d < 2 && rng.Intn(4) != 0 {
